@@ -41,6 +41,11 @@ def dStr : Y → D Str
   | .float raw => .ok raw
   | _ => yamlErr
 
+/-- a required `String` field (`deserialize_non_null_string`): as `dStr`, but `null` is rejected. -/
+def dStrNN : Y → D Str
+  | .null => yamlErr
+  | y => dStr y
+
 def dU32 : Y → D Nat
   | .int i => if 0 ≤ i ∧ i < 4294967296 then .ok i.toNat else yamlErr
   | _ => yamlErr
@@ -281,7 +286,7 @@ def dSegmentS : Y → D SegmentS
         match lookup c!"files" m with
         | some (.seq l) => mapE (fun y => dFileS (Y.size y) y) l
         | _ => yamlErr
-      match reqOf dStr m c!"name", filesR, anOf dU32 m c!"fixed_vram", anOf dStr m c!"fixed_symbol",
+      match reqOf dStrNN m c!"name", filesR, anOf dU32 m c!"fixed_vram", anOf dStr m c!"fixed_symbol",
             anOf dStr m c!"follows_segment", anOf dStr m c!"vram_class", anOf dStr m c!"dir",
             anOf dGpInfoS m c!"gp_info", dCondS m, dOverS m, keepOf m with
       | .ok n, .ok fs, .ok fv, .ok fsy, .ok fol, .ok vc, .ok dir, .ok gp, .ok c, .ok ov, .ok kp =>
@@ -301,7 +306,7 @@ def dVramClassS : Y → D VramClassS
     match checkKeys [c!"name", c!"fixed_vram", c!"fixed_symbol", c!"follows_classes", c!"keep_sections"] m with
     | .error e => .error e
     | .ok () =>
-      match reqOf dStr m c!"name", anOf dU32 m c!"fixed_vram", anOf dStr m c!"fixed_symbol",
+      match reqOf dStrNN m c!"name", anOf dU32 m c!"fixed_vram", anOf dStr m c!"fixed_symbol",
             anOf dStrList m c!"follows_classes", keepOf m with
       | .ok n, .ok fv, .ok fs, .ok fc, .ok kp => .ok ⟨n, fv, fs, fc, kp⟩
       | _, _, _, _, _ => yamlErr
@@ -319,7 +324,7 @@ def dSymbolAssignmentS : Y → D SymbolAssignmentS
     match checkKeys ([c!"name", c!"value", c!"provide", c!"hidden"] ++ condKeys) m with
     | .error e => .error e
     | .ok () =>
-      match reqOf dStr m c!"name", reqOf dStr m c!"value", anOf dBool m c!"provide",
+      match reqOf dStrNN m c!"name", reqOf dStrNN m c!"value", anOf dBool m c!"provide",
             anOf dBool m c!"hidden", dCondS m with
       | .ok n, .ok v, .ok p, .ok h, .ok c => .ok ⟨n, v, p, h, c⟩
       | _, _, _, _, _ => yamlErr
@@ -334,7 +339,7 @@ def dRequiredSymbolS : Y → D RequiredSymbolS
     match checkKeys ([c!"name"] ++ condKeys) m with
     | .error e => .error e
     | .ok () =>
-      match reqOf dStr m c!"name", dCondS m with
+      match reqOf dStrNN m c!"name", dCondS m with
       | .ok n, .ok c => .ok ⟨n, c⟩
       | _, _ => yamlErr
   | _ => yamlErr
@@ -349,7 +354,7 @@ def dAssertS : Y → D AssertS
     match checkKeys ([c!"check", c!"error_message"] ++ condKeys) m with
     | .error e => .error e
     | .ok () =>
-      match reqOf dStr m c!"check", reqOf dStr m c!"error_message", dCondS m with
+      match reqOf dStrNN m c!"check", reqOf dStrNN m c!"error_message", dCondS m with
       | .ok n, .ok v, .ok c => .ok ⟨n, v, c⟩
       | _, _, _ => yamlErr
   | _ => yamlErr
